@@ -5,8 +5,8 @@
 (* each value (""/" "/newline between values, ""/newline at the end).         *)
 (* Behaviours: every stream x { no fault, every truncation point, every       *)
 (* I/O-error position, every single-byte substitution from SubstBytes } x     *)
-(* EVERY chunking (cuts = FreeCuts: ReadReturn(k) for every k), so the         *)
-(* invariants of JqStream are checked for all partitions of the byte stream.  *)
+(* EVERY chunking (ReadReturn(k) for every k), so the invariants of JqStream  *)
+(* are checked for all partitions of the byte stream into reads.              *)
 (* One vector per (stream, fault): the per-prefix bounds, the expected end,   *)
 (* and the boundary-relevant chunkings to replay on the real code.            *)
 EXTENDS JqStream
@@ -67,6 +67,32 @@ SpansFrom(c, i, off) ==
            g == IF i < Len(c.vs) THEN Len(Seps[c.ss[i]]) ELSE Len(Tails[c.t])
        IN <<[s |-> off + 1, e |-> off + l]>> \o SpansFrom(c, i + 1, off + l + g)
 
+\* fixed texts that drive the scanner through the parts of the grammar the
+\* value texts above do not reach (unicode and other escapes, all number forms,
+\* a second key, inner whitespace, and malformed variants); they get every
+\* fault and substitution as well
+BS == "\\"
+Extra == {
+  <<Q, BS, "u", "0", "0", "e", "9", Q>>,
+  <<Q, BS, "u", "0", "0", "g", "9", Q>>,
+  <<Q, BS, "n", BS, "t", BS, "/", BS, "b", BS, "f", BS, "r", BS, BS, Q>>,
+  <<Q, BS, "x", Q>>,
+  Chars("1.5e+3 0.25E-1"),
+  Chars("1.E 2"),
+  Chars("01-"),
+  Chars("1E5,"),
+  Chars("{ ") \o <<Q, "a", Q>> \o Chars(" : 1 , ") \o <<Q, "b", Q>> \o Chars(" : [ ] }"),
+  Chars("{") \o <<Q, "a", Q>> \o Chars(":{") \o <<Q, "b", Q>> \o Chars(":[true,false,null]}}"),
+  Chars("[1 ,2 ] [1,]"),
+  Chars("{") \o <<Q, "a", Q>> \o Chars(":1,}"),
+  Chars("{") \o <<Q, "a", Q>> \o Chars(" 1}"),
+  Chars("[1 2]"),
+  Chars("tru e"),
+  <<Q, "a", NL, Q>>,
+  <<" ", TAB, CR, NL, "7", TAB>>
+}
+NoComp == [vs |-> <<>>, ss |-> <<>>, t |-> 0]
+
 VARIABLES ph, comp
 mcvars == <<vars, ph, comp>>
 
@@ -74,23 +100,23 @@ NoFault == [kind |-> "none", at |-> 0]
 
 Init ==
   /\ ph = "pick"
-  /\ comp \in {c \in Comps : LegalComp(c.vs, c.ss) /\ Keep(c.vs, c.ss, c.t)}
-  /\ stream = Build(comp)
-  /\ cuts = FreeCuts /\ fault = NoFault /\ scan = <<>>
+  /\ \/ comp \in {c \in Comps : LegalComp(c.vs, c.ss) /\ Keep(c.vs, c.ss, c.t)} /\ stream = Build(comp)
+     \/ comp = NoComp /\ stream \in Extra
+  /\ fault = NoFault /\ scan = <<>>
   /\ StartState
 
 Substitute(s, i, b) == [s EXCEPT ![i] = b]
 
 \* choose the fault (or the corruption) of this behaviour
 Setup ==
-  /\ ph = "pick" /\ ph' = "run" /\ comp' = <<>>
+  /\ ph = "pick" /\ ph' = "run" /\ comp' = NoComp
   /\ \/ /\ fault' = NoFault /\ stream' = stream
      \/ \E p \in 0..(Len(stream) - 1) : fault' = [kind |-> "eof", at |-> p] /\ stream' = stream
      \/ \E p \in 0..Len(stream) : fault' = [kind |-> "ioerr", at |-> p] /\ stream' = stream
      \/ \E i \in 1..Len(stream) : \E b \in SubstBytes \ {stream[i]} :
            fault' = NoFault /\ stream' = Substitute(stream, i, b)
   /\ scan' = ScanAll(Readable(stream', fault'))
-  /\ UNCHANGED <<cuts, svars>>
+  /\ UNCHANGED svars
 
 Keep3 == UNCHANGED <<params, ph, comp>>
 McReadCall       == ph = "run" /\ ReadCall /\ Keep3
@@ -114,7 +140,7 @@ Fresh == Running /\ StartState
 \* ---- laws on the spec itself
 \* round trip: the scanner finds exactly the values the stream was built from
 BuildLaw ==
-  ph = "pick" =>
+  (ph = "pick" /\ comp # NoComp) =>
     LET sc == ScanAll(stream) IN
     /\ sc.err = 0 /\ ~sc.open
     /\ [k \in 1..Len(sc.vals) |-> [s |-> sc.vals[k].s, e |-> sc.vals[k].e]] = SpansFrom(comp, 1, 0)
